@@ -400,7 +400,14 @@ class CallMixin:
                 self.spec_mode = old
             vs = [v.z for _, v in svals]
             if q == "forall":
-                return [(st, vbool(z3.ForAll(vs, body, patterns=pats) if pats else z3.ForAll(vs, body)))]
+                if pats:
+                    try:
+                        return [(st, vbool(z3.ForAll(vs, body, patterns=pats)))]
+                    except z3.Z3Exception:
+                        # the requested trigger is not a legal pattern for this value of the terms (e.g. a list that is a
+                        # store chain / ite here): a trigger is only a hint, so fall back to z3's own choice
+                        pass
+                return [(st, vbool(z3.ForAll(vs, body)))]
             return [(st, vbool(z3.Exists(vs, body)))]
         if name == "old":
             if st.pre is None:
@@ -464,6 +471,8 @@ class CallMixin:
             return self.world.py2sort[name]
         if name == "Opaque":
             return OPAQUE
+        if name.endswith("Set") and name[:-3] in self.world.classes:
+            return SetSort(Ref(name[:-3]))          # e.g. NodeSet
         raise Unsupported(None, f"unknown sort name {name}")
 
     _expr_cache = {}
@@ -1067,6 +1076,23 @@ class CallMixin:
             env2["final_" + lname] = fresh(lsort, "final_" + lname)
             self.assume_wf(post, env2["final_" + lname])
             env[("final_" + lname)] = env2["final_" + lname]
+        # a container parameter the callee mutates in place (by reference): the caller's variable now holds the callee's
+        # final value of it (declared with c.mutates_param(name); the final value is the exposed local final_<name>)
+        for pname in getattr(c, "mutated_params", []):
+            fin = env2.get("final_" + pname)
+            if fin is None:
+                raise Unsupported(node, f"mutated parameter {pname} of {c.short} is not exposed")
+            arg_node = None
+            if isinstance(node, ast.Call):
+                if pname in formals and formals.index(pname) < len(node.args):
+                    arg_node = node.args[formals.index(pname)]
+                for k_ in node.keywords:
+                    if k_.arg == pname:
+                        arg_node = k_.value
+            if isinstance(arg_node, ast.Name) and arg_node.id in post.env:
+                post.env[arg_node.id] = fin
+            elif arg_node is not None and not (isinstance(arg_node, ast.Constant) and arg_node.value is None):
+                raise Unsupported(node, f"argument for mutated parameter {pname} must be a plain variable")
         post_st = St(env2, post.heap, [], pre_st, post.ghost)
         for lab, e in c.ensures:
             if lab.startswith("rt:"):
@@ -1079,7 +1105,7 @@ class CallMixin:
             for loc in c.modifies:
                 self.havoc_loc(sx, loc)
             if r.when:
-                sx.assume(self.spec_bool(r.when, pre_st))
+                sx.assume(self.spec_bool(r.when[6:] if r.when.startswith('ghost:') else r.when, pre_st))
             x_st = St(dict(env), sx.heap, [], pre_st, sx.ghost)
             for e in r.ensures:
                 e = e[6:] if e.startswith("ghost:") else (e[7:] if e.startswith("assume:") else e)
@@ -1087,7 +1113,7 @@ class CallMixin:
             if self.feasible(sx):
                 self.raised.append(Outcome("raise", sx, ExcVal(r.exc)))
             if getattr(r, "iff", False) and r.when:
-                post.assume(z3.Not(self.spec_bool(r.when, pre_st)))
+                post.assume(z3.Not(self.spec_bool(r.when[6:] if r.when.startswith('ghost:') else r.when, pre_st)))
         if self.feasible(post):
             out.append((post, res))
         return out
